@@ -187,6 +187,48 @@ def json_members(body):
     return objs
 
 
+JWK_ORACLE = {"Rsa2048": ("RSA", None, "RS256"), "Rsa4096": ("RSA", None, "RS256"), "EcdsaP256": ("EC", "P-256", "ES256"), "EcdsaP384": ("EC", "P-384", "ES384"),
+              "EcdsaP521": ("EC", "P-521", "ES512"), "Ed25519": ("OKP", "Ed25519", "EdDSA"), "Ed448": ("OKP", "Ed448", "EdDSA")}
+JWK_KEY_MEMBERS = {"RSA": ("e", "n"), "EC": ("x", "y"), "OKP": ("x",)}
+
+
+def jwk_table(prog):
+    """The JWK objects, EVALUATED from the two public entry points (KeyPair::jwk_public_key / jwk_public_key_thumbprint) for every
+    key type: the interpreter follows every KeyPair / KeyType method, every fallible call succeeds, and the `Map::insert` calls are
+    read off the trace, whatever the shape of the builders (bool flag, enum, shared helper, ...).
+    Returns {(key_type, "full"|"thumb"): {member: constant string or None}} or None when some run does not return."""
+    from ..absint import Val, marker, ok, run, struct_val, success_model, variant
+    out = {}
+    follow = lambda cs: (cs.name or "").startswith(KEYS + "::") or (cs.name or "").startswith(KT + "::") or (cs.name or "").startswith("<" + KT + " as ")
+
+    def ov(cs, args):
+        if (cs.name or "").endswith("value::to_value") and args:
+            return ok(args[0].deref())
+        return None
+    for entry, tag in (("jwk_public_key", "full"), ("jwk_public_key_thumbprint", "thumb")):
+        b = prog.body(KEYS + "::" + entry)
+        if b is None:
+            return None
+        for kt in key_variants(prog):
+            kp = struct_val(prog, KEYS, {"key_type": variant(KT, kt), "inner_key": marker("PKEY")})
+            try:
+                r = run(b, {1: Val("ref", kp)}, success_model(b, ov, skip_unknown_loops=True), max_steps=60000, follow=follow)
+            except Exception:
+                return None
+            if r.kind != "return":
+                return None
+            members = {}
+            for c, a, res in r.calls:
+                n = c.name or ""
+                if n.endswith("::insert") and "serde_json" in n and len(a) > 2:
+                    k, v = a[1].deref(), a[2].deref()
+                    if k.k != "str":
+                        return None
+                    members[k.v] = v.v if v.k == "str" else None
+            out[(kt, tag)] = members
+    return out
+
+
 def jwk_objects(prog, fn):
     """evaluate the JWK builder for thumbprint true/false: returns {thumb: {member: const-or-None}}"""
     b = prog.must_body(KEYS + "::" + fn)
